@@ -20,8 +20,7 @@ kernel sm_rescale: pybrops/core/mat/DenseScaledMatrix.py :: DenseScaledMatrix.re
     out of scope (parameter nonempty): `out.size > 0`
     out of scope (parameter lo): `numpy.fmin.reduce(out.reshape(-1, out.shape[-1]), axis=0)`
     out of scope (parameter hi): `numpy.fmax.reduce(out.reshape(-1, out.shape[-1]), axis=0)`
-kernel bv_unscale: pybrops/popgen/bvmat/DenseBreedingValueMatrix.py :: DenseBreedingValueMatrix.unscale  sha=6b196f8ea6448f59  FAILED
-    bv_unscale (pybrops/popgen/bvmat/DenseBreedingValueMatrix.py:DenseBreedingValueMatrix.unscale): Untranslatable: name `self._unscaled` is neither a declared parameter nor assigned in the kernel
+kernel bv_unscale: pybrops/popgen/bvmat/DenseBreedingValueMatrix.py :: DenseBreedingValueMatrix.unscale  sha=89337997520e9d78  ok
 kernel bv_from_numpy: pybrops/popgen/bvmat/DenseBreedingValueMatrix.py :: DenseBreedingValueMatrix.from_numpy  sha=0e341be7f2469155  ok
     slice: targets ['const', 'hi', 'lo', 'location', 'mat', 'scale'] -> ('mat', 'location', 'scale')
     out of scope (parameter nmean): `numpy.nanmean(mat, axis=0)`
@@ -38,9 +37,9 @@ kernel bv_tmin: pybrops/popgen/bvmat/DenseBreedingValueMatrix.py :: DenseBreedin
 kernel bv_trange: pybrops/popgen/bvmat/DenseBreedingValueMatrix.py :: DenseBreedingValueMatrix.trange  sha=072f54552020e9c5  ok
     slice: targets ['out'] -> out
     out of scope (parameter m): `numpy.ptp(self._mat, axis=self.taxa_axis)`
-kernel bv_tmean: pybrops/popgen/bvmat/DenseBreedingValueMatrix.py :: DenseBreedingValueMatrix.tmean  sha=42a5d8c5e1e886cc  ok
+kernel bv_tmean: pybrops/popgen/bvmat/DenseBreedingValueMatrix.py :: DenseBreedingValueMatrix.tmean  sha=32f7077cb4cf007d  FAILED
     slice: targets ['out'] -> out
-    out of scope (parameter m): `self._mat.mean(axis=self.taxa_axis)`
+    bv_tmean (pybrops/popgen/bvmat/DenseBreedingValueMatrix.py:DenseBreedingValueMatrix.tmean): Untranslatable: name `self._scale` is neither a declared parameter nor assigned in the kernel
 kernel bv_tstd: pybrops/popgen/bvmat/DenseBreedingValueMatrix.py :: DenseBreedingValueMatrix.tstd  sha=f20c99084474df12  ok
     out of scope (parameter nstd): `numpy.nanstd(self._mat, axis=self.taxa_axis)`
     out of scope (parameter std): `self._mat.std(axis=self.taxa_axis)`
@@ -98,7 +97,8 @@ def sm_rescale {α : Type} [Add α] [Sub α] [Mul α] [Div α] [OfNat α 0] [OfN
   (out, new_location, new_scale)
 
 /-- pybrops/popgen/bvmat/DenseBreedingValueMatrix.py :: DenseBreedingValueMatrix.unscale; model counterpart: BVMat unscale cell -/
--- NOT TRANSLATED: bv_unscale (pybrops/popgen/bvmat/DenseBreedingValueMatrix.py:DenseBreedingValueMatrix.unscale): Untranslatable: name `self._unscaled` is neither a declared parameter nor assigned in the kernel
+def bv_unscale {α : Type} [Add α] [Mul α] (x : α) (location : α) (scale : α) : α :=
+  ((scale * x) + location)
 
 /-- pybrops/popgen/bvmat/DenseBreedingValueMatrix.py :: DenseBreedingValueMatrix.from_numpy; model counterpart: BVMat fromNumpy cell: (x - loc') * (1/scale'), loc'/scale' = BVMat.fitLoc / fitScale -/
 def bv_from_numpy {α : Type} [Sub α] [Mul α] [Div α] [OfNat α 0] [OfNat α 1] [DecidableEq α] (mat : α) (nmean : α) (nstd : α) (nonempty : Bool) (lo : α) (hi : α) : (α × α × α) :=
@@ -156,9 +156,7 @@ def bv_trange {α : Type} [Mul α] (unscale : Bool) (scale : α) (m : α) : α :
   out
 
 /-- pybrops/popgen/bvmat/DenseBreedingValueMatrix.py :: DenseBreedingValueMatrix.tmean; model counterpart: BVMat tmean -/
-def bv_tmean {α : Type} (unscale : Bool) (location : α) (m : α) : α :=
-  let out := (if (unscale = true) then location else m)
-  out
+-- NOT TRANSLATED: bv_tmean (pybrops/popgen/bvmat/DenseBreedingValueMatrix.py:DenseBreedingValueMatrix.tmean): Untranslatable: name `self._scale` is neither a declared parameter nor assigned in the kernel
 
 /-- pybrops/popgen/bvmat/DenseBreedingValueMatrix.py :: DenseBreedingValueMatrix.tstd; model counterpart: BVMat tstd -/
 def bv_tstd {α : Type} [Mul α] (unscale : Bool) (scale : α) (nstd : α) (std : α) : α :=
